@@ -1,0 +1,63 @@
+//go:build verif
+
+// Machine-checked contracts for the ulimit-adjuster sample plugin (property C20).
+// Comment-only file, compiled only with the build tag "verif"; read by /verif/bin/nriverif.
+
+package main
+
+// only the container-scoped annotation counts for this plugin
+//@ pure ukey(container string) = ulimitKey + "/container." + container
+// the accepted spelling of an rlimit name: case-insensitive, optional RLIMIT_ prefix
+//@ pure norm(t string) = trimprefix(toupper(t), rlimitPrefix)
+
+//@ func parseUlimits
+//@   props C20
+//@   modifies calls("yaml.Unmarshal:[]main.ulimit")
+//@   ensures [none] !has(annotations, ukey(container)) ==> result.1 == nil && len(result.0) == 0 && ncalls("yaml.Unmarshal:[]main.ulimit") == old(ncalls("yaml.Unmarshal:[]main.ulimit"))
+//@   ensures [dec]  has(annotations, ukey(container)) ==> ncalls("yaml.Unmarshal:[]main.ulimit") == old(ncalls("yaml.Unmarshal:[]main.ulimit")) + 1
+//@                  && callarg("yaml.Unmarshal:[]main.ulimit", old(ncalls("yaml.Unmarshal:[]main.ulimit")), 0) == annotations[ukey(container)]
+//@   ensures [err]  has(annotations, ukey(container)) && callret("yaml.Unmarshal:[]main.ulimit", old(ncalls("yaml.Unmarshal:[]main.ulimit")), 0) != nil ==> result.1 != nil
+//@   ensures [fail] result.1 != nil ==> len(result.0) == 0
+// every decoded entry is kept, in order, with its limits; its type is the normalised spelling,
+// which must be one of the known names - otherwise the whole request fails
+//@   ensures [ok]   has(annotations, ukey(container)) && result.1 == nil ==> callret("yaml.Unmarshal:[]main.ulimit", old(ncalls("yaml.Unmarshal:[]main.ulimit")), 0) == nil
+//@                  && (let dec = callret("yaml.Unmarshal:[]main.ulimit", old(ncalls("yaml.Unmarshal:[]main.ulimit")), 2) in
+//@                      len(result.0) == len(dec) && (forall i int :: 0 <= i && i < len(dec) ==> result.0[i].Type == rlimitPrefix + norm(dec[i].Type)
+//@                          && has(valid, norm(dec[i].Type)) && result.0[i].Hard == dec[i].Hard && result.0[i].Soft == dec[i].Soft))
+//@   ensures [bad]  has(annotations, ukey(container)) && callret("yaml.Unmarshal:[]main.ulimit", old(ncalls("yaml.Unmarshal:[]main.ulimit")), 0) == nil
+//@                  && (let dec = callret("yaml.Unmarshal:[]main.ulimit", old(ncalls("yaml.Unmarshal:[]main.ulimit")), 2) in
+//@                      (forall i int :: 0 <= i && i < len(dec) ==> has(valid, norm(dec[i].Type)))) ==> result.1 == nil
+//@   loop 1 invariant 0 <= idx + 1 && idx + 1 <= len(ulimits) && ncalls("yaml.Unmarshal:[]main.ulimit") == pre(ncalls("yaml.Unmarshal:[]main.ulimit")) && ulimits == pre(ulimits)
+//@   loop 1 invariant let dec = callret("yaml.Unmarshal:[]main.ulimit", old(ncalls("yaml.Unmarshal:[]main.ulimit")), 2) in
+//@                      (forall i int :: 0 <= i && i < len(dec) ==> ulimits[i].Hard == dec[i].Hard && ulimits[i].Soft == dec[i].Soft
+//@                          && (i <= idx ==> ulimits[i].Type == rlimitPrefix + norm(dec[i].Type) && has(valid, norm(dec[i].Type)))
+//@                          && (i > idx ==> ulimits[i].Type == dec[i].Type))
+//@   loop 1 invariant forall i int :: 0 <= i && i < len(ulimits) ==> callret("yaml.Unmarshal:[]main.ulimit", old(ncalls("yaml.Unmarshal:[]main.ulimit")), 2)[i] == pre(callret("yaml.Unmarshal:[]main.ulimit", old(ncalls("yaml.Unmarshal:[]main.ulimit")), 2)[i])
+
+//@ func adjustUlimits
+//@   props C20
+//@   ensures [bad]  (forall i int :: 0 <= i && i < len(ulimits) ==> ulimits[i].Hard >= ulimits[i].Soft) <==> result.1 == nil
+//@   ensures [fail] result.1 != nil ==> result.0 == nil
+//@   ensures [ok]   result.1 == nil ==> result.0 != nil && fresh(result.0) && len(result.0.Rlimits) == len(ulimits)
+//@                  && (forall i int :: 0 <= i && i < len(ulimits) ==> result.0.Rlimits[i] != nil && result.0.Rlimits[i].Type == ulimits[i].Type && result.0.Rlimits[i].Hard == ulimits[i].Hard && result.0.Rlimits[i].Soft == ulimits[i].Soft)
+//@                  && result.0.Linux == nil && len(result.0.Mounts) == 0 && len(result.0.Env) == 0 && len(result.0.Annotations) == 0 && len(result.0.CDIDevices) == 0 && result.0.Hooks == nil
+//@   loop 1 invariant 0 <= idx + 1 && idx + 1 <= len(ulimits) && allocated(adjust) && fresh(adjust)
+//@   loop 1 invariant len(adjust.Rlimits) == idx + 1
+//@   loop 1 invariant forall i int :: 0 <= i && i <= idx ==> ulimits[i].Hard >= ulimits[i].Soft && adjust.Rlimits[i] != nil && adjust.Rlimits[i].Type == ulimits[i].Type && adjust.Rlimits[i].Hard == ulimits[i].Hard && adjust.Rlimits[i].Soft == ulimits[i].Soft
+//@   loop 1 invariant adjust.Linux == nil && len(adjust.Mounts) == 0 && len(adjust.Env) == 0 && len(adjust.Annotations) == 0 && len(adjust.CDIDevices) == 0 && adjust.Hooks == nil
+//@   loop 1 invariant base(adjust.Rlimits) == 0 || fresh(adjust.Rlimits)
+
+//@ func plugin.CreateContainer
+//@   props C20
+//@   requires p != nil && pod != nil && container != nil
+//@   modifies calls("yaml.Unmarshal:[]main.ulimit"), p.l
+//@   ensures [upd]   len(result.1) == 0
+//@   ensures [fail]  result.2 != nil ==> result.0 == nil
+//@   ensures [none]  !has(pod.Annotations, ukey(container.Name)) ==> result.2 == nil && result.0 != nil && len(result.0.Rlimits) == 0
+//@   ensures [yerr]  has(pod.Annotations, ukey(container.Name)) && callret("yaml.Unmarshal:[]main.ulimit", old(ncalls("yaml.Unmarshal:[]main.ulimit")), 0) != nil ==> result.2 != nil
+//@   ensures [ok]    has(pod.Annotations, ukey(container.Name)) && result.2 == nil ==> callarg("yaml.Unmarshal:[]main.ulimit", old(ncalls("yaml.Unmarshal:[]main.ulimit")), 0) == pod.Annotations[ukey(container.Name)]
+//@                   && result.0 != nil && fresh(result.0)
+//@                   && (let dec = callret("yaml.Unmarshal:[]main.ulimit", old(ncalls("yaml.Unmarshal:[]main.ulimit")), 2) in
+//@                       len(result.0.Rlimits) == len(dec) && (forall i int :: 0 <= i && i < len(dec) ==> result.0.Rlimits[i] != nil && result.0.Rlimits[i].Type == rlimitPrefix + norm(dec[i].Type)
+//@                           && has(valid, norm(dec[i].Type)) && result.0.Rlimits[i].Hard == dec[i].Hard && result.0.Rlimits[i].Soft == dec[i].Soft && dec[i].Hard >= dec[i].Soft))
+//@   ensures [only]  result.2 == nil ==> result.0.Linux == nil && len(result.0.Mounts) == 0 && len(result.0.CDIDevices) == 0
